@@ -4,7 +4,9 @@ reported it before, against the CURRENT /verif, in scratch worktrees (never /rep
 caught_by_quick_checks in its meta.json. usage: finalmatrix.py <worktree> [name-prefix...]"""
 import json, glob, os, subprocess, sys, re
 wt = sys.argv[1]
-only = sys.argv[2:]
+only = [a for a in sys.argv[2:] if not a.startswith('--')]
+own_only = '--own-only' in sys.argv   # re-run only the check of the change's own property; keep what other checks reported when it was vetted
+check = os.environ.get('VERIF_CHECK', '/verif/check')
 env = dict(os.environ, GOFLAGS='-mod=mod', GOPROXY='off', GOSUMDB='off', GOTOOLCHAIN='local')
 head = subprocess.run(['git', '-C', '/verif', 'rev-parse', '--short', 'HEAD'], capture_output=True, text=True).stdout.strip()
 for d in sorted(glob.glob('/verif/seeded/*/')):
@@ -15,6 +17,10 @@ for d in sorted(glob.glob('/verif/seeded/*/')):
     m = json.load(open(mp))
     prop = m['property']
     ids = [prop] + [c for c in sorted(m.get('caught_by_quick_checks', {})) if c != prop]
+    earlier = {}
+    if own_only:
+        earlier = {c: dict(v, vetted_with_an_earlier_version_of_the_checks=True) for c, v in m.get('caught_by_quick_checks', {}).items() if c != prop}
+        ids = [prop]
     subprocess.run(['git', 'checkout', '-q', '--', '.'], cwd=wt, check=True)
     subprocess.run(['git', 'clean', '-fdq'], cwd=wt, check=True)
     r = subprocess.run(['git', 'apply', os.path.join(d, 'patch.diff')], cwd=wt)
@@ -25,12 +31,13 @@ for d in sorted(glob.glob('/verif/seeded/*/')):
     caught = {}
     for cid in ids:
         e = dict(env, VERIF_REPO=wt, VERIF_OUT=out, VERIF_COVER='0')
-        r = subprocess.run(['/verif/check', cid, 'quick'], env=e, capture_output=True, text=True)
+        r = subprocess.run([check, cid, 'quick'], env=e, capture_output=True, text=True)
         open(os.path.join(out, 'check_%s.txt' % cid), 'w').write(r.stdout + r.stderr)
         if r.returncode != 0:
             mo = re.search(r'oracle="([^"]*)"', r.stdout)
             caught[cid] = {'violations_reported': len(re.findall(r'^VIOLATION', r.stdout, re.M)), 'first_oracle': mo.group(1) if mo else None,
                            'summary': r.stdout.strip().split('\n')[-1][:200], 'exit': r.returncode}
+    caught.update(earlier)
     m['caught_by_quick_checks'] = caught
     m['caught'] = bool(caught)
     m['final_matrix'] = {'verif_commit': head, 'quick_checks_run': ids}
